@@ -166,6 +166,19 @@ func vC13SelfSigned(t *testing.T, dir string, hosts []string) (string, string) {
 // vC13Response renders the scripted target response.
 func vC13Response(r map[string]any, head bool) []byte {
 	var b bytes.Buffer
+	// informational responses (103 Early Hints, 102 Processing) sent ahead of the final one
+	for _, e := range vList(r["early"]) {
+		em := e.(map[string]any)
+		fmt.Fprintf(&b, "HTTP/1.1 %03d Early\r\n", int(vInt(em["status"])))
+		for _, h := range vList(em["headers"]) {
+			kv := vList(h)
+			b.Write(vUnhex(kv[0]))
+			b.WriteString(": ")
+			b.Write(vUnhex(kv[1]))
+			b.WriteString("\r\n")
+		}
+		b.WriteString("\r\n")
+	}
 	status := int(vInt(r["status"]))
 	fmt.Fprintf(&b, "HTTP/1.1 %03d %s\r\n", status, string(vUnhex(r["reason"])))
 	for _, h := range vList(r["headers"]) {
@@ -317,7 +330,14 @@ func TestVerifC13(t *testing.T) {
 				res["err"] = "write: " + err.Error()
 				return
 			}
-			resp, err := http.ReadResponse(bufio.NewReader(conn), &http.Request{Method: vStr(c["method"])})
+			cbr := bufio.NewReader(conn)
+			resp, err := http.ReadResponse(cbr, &http.Request{Method: vStr(c["method"])})
+			early := []any{}
+			for err == nil && resp.StatusCode >= 100 && resp.StatusCode < 200 && resp.StatusCode != 101 && len(early) < 8 {
+				early = append(early, map[string]any{"status": resp.StatusCode, "headers": vC13HeaderList(resp.Header)})
+				resp, err = http.ReadResponse(cbr, &http.Request{Method: vStr(c["method"])})
+			}
+			res["early"] = early
 			if err != nil {
 				res["err"] = "read: " + err.Error()
 				return
